@@ -1,1 +1,106 @@
-From CMinx Require Import Base.Str.
+(* Properties/C02.v -- Exactly one entry per documentable command, in source order.
+   Only theorem statements; proofs are in Proofs/AggInv.v (and Proofs/ParserFacts.v for the
+   parser).  Model: Model/Aggregator.v (agg_step / agg_run / aggregate over the parse tree in
+   walker order).  Spec: Spec/AggSpec.v -- expected_keys is a one-pass function with three small
+   pieces of state (is a member/test declaration pending, how many classes / definitions are
+   open) that says per command which entry kind and name it yields; it mentions none of the
+   aggregator's lists or stacks. *)
+From Coq Require Import String List.
+From CMinx Require Import Base.Str Model.Lexer Model.Parser Model.DocTypes Model.Aggregator
+     Spec.EntrySpec Spec.AggSpec Gen.SourceLiterals Proofs.AggInv Proofs.SpecLinks Proofs.LiteralsMatch.
+Import ListNotations.
+
+(* the main refinement: under default settings the entry list (kind and name, in order) of a
+   file is exactly what the one-pass specification says, for every file *)
+Theorem C02_entries_refine_spec :
+  forall trigger strip_fn strip_mac strip_mem f st,
+    aggregate default_flags trigger strip_fn strip_mac strip_mem f = Ok st ->
+    expected_keys f = Some (map ekey (documented st)).
+Proof. exact entries_refine_spec. Qed.
+Print Assumptions C02_entries_refine_spec.
+
+(* and the aggregator raises exactly where the specification says it must (unbalanced end
+   command, function() without a name) *)
+Theorem C02_crash_iff_spec_none :
+  forall trigger strip_fn strip_mac strip_mem f,
+    aggregate default_flags trigger strip_fn strip_mac strip_mem f = Crash
+    <-> expected_keys f = None.
+Proof. exact crash_iff_spec_none. Qed.
+Print Assumptions C02_crash_iff_spec_none.
+
+(* append-only: a command adds at most one entry at the end; earlier entries keep constructor,
+   name, doc and position (only has_kwargs / params / member lists evolve) -- every reachable state *)
+Theorem C02_step_append_only :
+  forall trigger strip_fn strip_mac strip_mem fl st e st',
+    agg_step fl trigger strip_fn strip_mac strip_mem st e = Ok st' ->
+    exists old' new,
+      documented st' = old' ++ new /\ length new <= 1
+      /\ Forall2 entry_evolves (documented st) old'
+      /\ length (documented st') = length (documented st) + length new.
+Proof. exact agg_step_append_only. Qed.
+Print Assumptions C02_step_append_only.
+
+Theorem C02_run_keys_prefix :
+  forall trigger strip_fn strip_mac strip_mem fl st es st',
+    agg_run fl trigger strip_fn strip_mac strip_mem st es = Ok st' ->
+    exists ks, map ekey (documented st') = map ekey (documented st) ++ ks /\ length ks <= length es.
+Proof. exact agg_run_keys_prefix. Qed.
+Print Assumptions C02_run_keys_prefix.
+
+(* doccomments not followed by a command, and other commands without a doccomment, change nothing *)
+Theorem C02_dangling_no_effect :
+  forall trigger strip_fn strip_mac strip_mem fl st d,
+    agg_step fl trigger strip_fn strip_mac strip_mem st (EDangling d) = Ok st.
+Proof. exact dangling_no_effect. Qed.
+Print Assumptions C02_dangling_no_effect.
+
+Theorem C02_undocumented_other_no_effect :
+  forall trigger strip_fn strip_mac strip_mem fl st c,
+    lookup (lower_ascii (c_name c)) handler_table = None ->
+    is_pop_kind (lower_ascii (c_name c)) = false ->
+    agg_step fl trigger strip_fn strip_mac strip_mem st (ECmd c) = Ok st.
+Proof. exact undocumented_other_no_effect. Qed.
+Print Assumptions C02_undocumented_other_no_effect.
+
+(* the definition implementing the preceding member / test declaration gets no entry *)
+Theorem C02_claimed_definition_no_entry :
+  forall trigger strip_fn strip_mac strip_mem fl st c,
+    is_def_name (lower_ascii (c_name c)) = true -> awaiting st <> AwNone ->
+    exists st',
+      agg_step fl trigger strip_fn strip_mac strip_mem st (ECmd c) = Ok st'
+      /\ length (documented st') = length (documented st)
+      /\ awaiting st' = AwNone
+      /\ def_stack st' = None :: def_stack st
+      /\ class_stack st' = class_stack st.
+Proof. exact claimed_definition_no_entry. Qed.
+Print Assumptions C02_claimed_definition_no_entry.
+
+(* any other command with a doccomment: one generic entry with the lower-cased command name and
+   its arguments as written and in order (parenthesised groups included) *)
+Theorem C02_documented_other_generic :
+  forall trigger strip_fn strip_mac strip_mem fl d c st,
+    classify (cmd_kind c) = CkOther ->
+    agg_step fl trigger strip_fn strip_mac strip_mem st (EDocCmd d c)
+    = Ok (append (EGeneric (cmd_kind c) (clean_doc_text d) (map arg_written (c_args c))) true st).
+Proof. exact documented_other_generic. Qed.
+Print Assumptions C02_documented_other_generic.
+
+(* the model's rendering of an argument is the spec's *)
+Theorem C02_generic_args_as_written : forall c, map arg_written (c_args c) = generic_args c.
+Proof. exact generic_args_as_written. Qed.
+Print Assumptions C02_generic_args_as_written.
+
+(* dispatch by reflection: the process_<command> methods of the source are the handler table *)
+Theorem C02_dispatch_names_pinned :
+  subset reflected (s"generic_command" :: map fst handler_table) = true
+  /\ subset (s"generic_command" :: map fst handler_table) reflected = true.
+Proof. exact dispatch_names_match. Qed.
+Print Assumptions C02_dispatch_names_pinned.
+
+Theorem C02_enter_command_chain_pinned :
+  get (s"DocumentationAggregator.enterCommand_invocation") aggregator_strings
+  = [s"cpp_class"; s"cpp_end_class"; s"cmake_parse_arguments"; []; s"function"; s"macro"; [];
+     s"macro"; s"endfunction"; s"endmacro"; s"set"; s"generic_command"; s"process_"; F;
+     s"include_undocumented_"; F; s"process_"; F; []; s"function"; s"macro"].
+Proof. exact enter_command_literals. Qed.
+Print Assumptions C02_enter_command_chain_pinned.
